@@ -135,7 +135,7 @@ func (c04) Run(e *Env) {
 	specials := []float64{0, -0.0, 1, -1, 1e300, -1e300, 5e-324, math.Inf(1), math.Inf(-1), math.NaN(), math.MaxFloat64, 4294967296, 9.223372036854776e18}
 	persistedTimer, persistedHist := false, false
 	nFlushes := 0
-	nSteps := e.Range(3, 14)
+	nSteps := e.Range(3, 14*e.Depth())
 	for step := 0; step < nSteps; step++ {
 		switch e.Weighted("c04", []int{4, 4, 2}) {
 		case 0: // merge a batch
